@@ -20,8 +20,8 @@ ORACLE_DOC = ('concatenation of what real decode emits over the re-chunked real 
               'strings and the run must complete; the BOM appears exactly once at the start of the encoded stream')
 KNOWN_MATCHERS = {}
 
-ALPHA = ['a', 'Z', ' ', '\n', 'é', 'ß', '€', '你', '😀', '𝔘', 'é', '﻿', '\x00', '\x7f', '߿', 'ࠀ', '￿', '\U00010000']
-LATIN = ['a', 'Z', ' ', 'é', 'ß', '\xff', '\x00', '\x80']
+ALPHA = ['a', 'Z', ' ', '\n', '\r', 'é', 'ß', '€', '你', '😀', '𝔘', 'é', '﻿', '\x00', '\x7f', '߿', 'ࠀ', '￿', '\U00010000']
+LATIN = ['a', 'Z', ' ', '\r', 'é', 'ß', '\xff', '\x00', '\x80']
 ENCS = ['utf8', 'utf-16', 'utf-32', 'latin-1']
 
 
@@ -53,6 +53,10 @@ def cases(tier, rng):
     yield {'enc': 'utf-16', 'items': [], 'cuts': []}
     yield {'enc': 'utf-16', 'items': ['😀'], 'cuts': [1, 3, 5]}
     yield {'enc': 'utf-32', 'items': ['', 'a'], 'cuts': [2, 6, 6]}
+    # text that ends with a carriage return, and CR LF pairs cut between the two characters
+    for enc in ENCS:
+        yield {'enc': enc, 'items': ['line one\r', 'line two\r'], 'cuts': [3]}
+        yield {'enc': enc, 'items': ['a\r\nb\r', '\n', '\r'], 'cuts': [2, 3]}
     for enc in ENCS:
         alpha = LATIN if enc == 'latin-1' else ALPHA
         for items in (['a' + alpha[4], alpha[8 % len(alpha)], ''], [alpha[-1] + alpha[6 % len(alpha)]]):
